@@ -57,6 +57,7 @@ type Engine struct {
 	renamesUsed    map[string]map[string]string
 	rangeKeyBase   map[string]map[int]string // claims/rangekeys.json
 	loopsBase      map[string][]string       // claims/loops.json
+	litFPs         map[string][]string       // function -> fingerprints of its function literals, in source order
 }
 
 func loadEngine(repo string) (*Engine, error) {
@@ -117,16 +118,11 @@ func loadEngine(repo string) (*Engine, error) {
 						e.decls[fn] = &declInfo{x, p}
 						key := p.Name + "." + declKey(x)
 						e.targets[key] = &Target{Key: key, pkg: p, decl: x, sig: fn.Type().(*types.Signature)}
-						ord := 0
-						ast.Inspect(x, func(n ast.Node) bool {
-							if lit, ok := n.(*ast.FuncLit); ok {
-								ord++
-								k := fmt.Sprintf("%s$%d", key, ord)
-								e.targets[k] = &Target{Key: k, pkg: p, lit: lit, sig: p.TypesInfo.TypeOf(lit).(*types.Signature)}
-								e.litKeys[lit] = k
-							}
-							return true
-						})
+						for ord, lit := range e.numberLits(key, x, p) {
+							k := fmt.Sprintf("%s$%d", key, ord)
+							e.targets[k] = &Target{Key: k, pkg: p, lit: lit, sig: p.TypesInfo.TypeOf(lit).(*types.Signature)}
+							e.litKeys[lit] = k
+						}
 					}
 				case *ast.GenDecl:
 					if x.Tok != token.VAR {
@@ -147,16 +143,11 @@ func loadEngine(repo string) (*Engine, error) {
 							}
 							e.globals[v] = g
 							if g.init != nil {
-								ord := 0
 								key := p.Name + "." + n.Name
-								ast.Inspect(g.init, func(m ast.Node) bool {
-									if lit, ok := m.(*ast.FuncLit); ok {
-										ord++
-										k := fmt.Sprintf("%s$%d", key, ord)
-										e.targets[k] = &Target{Key: k, pkg: p, lit: lit, sig: p.TypesInfo.TypeOf(lit).(*types.Signature)}
-									}
-									return true
-								})
+								for ord, lit := range e.numberLits(key, g.init, p) {
+									k := fmt.Sprintf("%s$%d", key, ord)
+									e.targets[k] = &Target{Key: k, pkg: p, lit: lit, sig: p.TypesInfo.TypeOf(lit).(*types.Signature)}
+								}
 							}
 						}
 					}
@@ -871,4 +862,53 @@ func (e *Engine) isFuncVar(key string) bool {
 		}
 	}
 	return false
+}
+
+// litBaseline: claims/lits.json as recorded when the contracts were written (set by the check
+// driver before loading).  Contracts name the k-th function literal of a function (F$k); when
+// the number of literals has changed, the current literals are aligned with the recorded ones by
+// a fingerprint (signature and first statement), so that a literal added or removed elsewhere in
+// the function does not re-bind the contracts of the others.
+var litBaseline map[string][]string
+
+func (e *Engine) numberLits(key string, root ast.Node, p *packages.Package) map[int]*ast.FuncLit {
+	var lits []*ast.FuncLit
+	ast.Inspect(root, func(n ast.Node) bool {
+		if lit, ok := n.(*ast.FuncLit); ok {
+			lits = append(lits, lit)
+		}
+		return true
+	})
+	out := map[int]*ast.FuncLit{}
+	if len(lits) == 0 {
+		return out
+	}
+	fps := make([]string, len(lits))
+	for i, lit := range lits {
+		fp := types.TypeString(p.TypesInfo.TypeOf(lit), func(q *types.Package) string { return q.Name() })
+		if lit.Body != nil && len(lit.Body.List) > 0 {
+			first := nodeStr(lit.Body.List[0])
+			if len(first) > 120 {
+				first = first[:120]
+			}
+			fp += " | " + first
+		}
+		fps[i] = fp
+	}
+	if e.litFPs == nil {
+		e.litFPs = map[string][]string{}
+	}
+	e.litFPs[key] = fps
+	if base, ok := litBaseline[key]; ok && len(base) != len(fps) {
+		if m := loopMap(base, fps); m != nil {
+			for i, lit := range lits {
+				out[m[i+1]] = lit
+			}
+			return out
+		}
+	}
+	for i, lit := range lits {
+		out[i+1] = lit
+	}
+	return out
 }
